@@ -2,7 +2,7 @@
 import ast
 
 from ..cfg import CFG
-from ..facts import facts as nfacts, none_fact
+from ..facts import edge_facts, facts as nfacts, none_fact
 from ..report import AnalysisError, borrow, norm
 from ..srcmodel import own_nodes, own_statements, program_order
 from ..terms import Resolver, alternatives, show, walk
@@ -260,6 +260,7 @@ def _helper_facts(m, g, rep=None):
 
 def r2_getinfo(rep, ctx):
     m = ctx.model
+    _load_unknown_qt(m)
     fn = m.method("UnitDatabase", "GetInfo")
     n = 0
     cfg = CFG(fn.node)
@@ -396,7 +397,21 @@ def _is_qt(t):
 
 
 def _is_unknown_qt(t):
-    return any(s in (("name", "UNKNOWN_QUANTITY_TYPE"),) for s in walk(t))
+    # by name (function-level import) or by value (module-level import, resolved to the constant)
+    return any(s in (("name", "UNKNOWN_QUANTITY_TYPE"), ("const", _UNKNOWN_QT[0])) for s in walk(t))
+
+
+_UNKNOWN_QT = ["Unknown"]  # value of _unit_constants.UNKNOWN_QUANTITY_TYPE, re-read from the source by _load_unknown_qt
+
+
+def _load_unknown_qt(m):
+    for p_, (tree, _src) in m.trees.items():
+        if p_.endswith("_unit_constants.py"):
+            for st in tree.body:
+                if isinstance(st, ast.Assign) and any(isinstance(t, ast.Name) and t.id == "UNKNOWN_QUANTITY_TYPE" for t in st.targets) and isinstance(st.value, ast.Constant):
+                    _UNKNOWN_QT[0] = st.value.value
+                    return
+    raise AnalysisError("UNKNOWN_QUANTITY_TYPE is not a literal constant of _unit_constants")
 
 
 def _is_legacy_fixed(t, unit_i):
@@ -529,31 +544,67 @@ def r4_convert_with_exp(rep, ctx):
     fn = m.method("UnitDatabase", "_ConvertWithExp")
     cfg = CFG(fn.node)
     res = Resolver(m, fn)
-    guards = {"exp": None, "len_from": None, "len_to": None}
-    for nid in cfg.nodes("test"):
-        e = cfg.ast[nid]
-        if not (isinstance(e, ast.Compare) and len(e.ops) == 1 and isinstance(e.ops[0], ast.NotEq)):
-            continue
-        txt = ast.unparse(e)
-        if txt in ("from_exp != to_exp", "to_exp != from_exp"):
-            guards["exp"] = nid
-        elif txt == "len_from_unit != 1":
-            guards["len_from"] = nid
-        elif txt == "len_to_unit != 1":
-            guards["len_to"] = nid
-    missing = [k for k, v in guards.items() if v is None]
-    if missing:
-        rep.bad("C05.R4", "_ConvertWithExp:guards", "_ConvertWithExp lost its %s test(s): composed units or differing exponents are converted as if they were one unit with equal exponents" % missing, fn=fn)
-        return
-    for k, nid in guards.items():
-        rep.check(cfg.must_raise_from([(nid, "T")]), "C05.R4", "_ConvertWithExp:%s:must-raise" % k, "the %s mismatch must-raise" % k, "the %s mismatch does not always raise" % k, node=cfg.ast[nid], fn=fn)
+    P_FROM, P_TO = ("param", fn.params.index("from_unit_exps"), "from_unit_exps"), ("param", fn.params.index("to_unit_exps"), "to_unit_exps")
+
+    def length_of(t):
+        return t[0] == "call" and t[1] == ("name", "len") and len(t[2]) == 1 and not t[3] and t[2][0] in (P_FROM, P_TO) and t[2][0]
+
+    def exponent_of(t):
+        return t[0] == "sub" and t[2] == ("const", 1) and t[1][0] == "sub" and t[1][2] == ("const", 0) and t[1][1] in (P_FROM, P_TO) and t[1][1]
+
+    import operator as _op
+    CMP = {"eq": _op.eq, "lt": _op.lt, "le": _op.le, "gt": _op.gt, "ge": _op.ge}
+    SWAP = {"eq": "eq", "lt": "gt", "le": "ge", "gt": "lt", "ge": "le"}
+
+    def known(fs):
+        """what the normalised facts say: {('len', side): the only possible number of units, when the facts leave one}
+        and whether the two exponents are equal"""
+        out = {}
+        preds = {P_FROM: [], P_TO: []}
+        for k, l, r, pos in fs:
+            if k in CMP and r is not None:
+                lt, rt = res.term(l), res.term(r)
+                for x, y, kk in ((lt, rt, k), (rt, lt, SWAP[k])):
+                    side = length_of(x)
+                    if side and y[0] == "const" and isinstance(y[1], int) and not isinstance(y[1], bool):
+                        preds[side].append(lambda n, f=CMP[kk], c=y[1], pos=pos: f(n, c) == pos)
+                if k == "eq" and pos and {exponent_of(lt), exponent_of(rt)} == {P_FROM, P_TO}:
+                    out["exp-equal"] = True
+            elif k == "truth":
+                t = res.term(l)
+                # a sequence (or its length) used as a condition: true when not empty
+                side = length_of(t) or (t in (P_FROM, P_TO) and t)
+                if side:
+                    preds[side].append(lambda n, pos=pos: (n != 0) == pos)
+                # from_exp == to_exp == 1
+                if pos and t[0] == "op" and t[1].startswith("cmp:") and set(t[1][4:].split(",")) == {"Eq"} and {exponent_of(x) for x in t[2]} >= {P_FROM, P_TO}:
+                    out["exp-equal"] = True
+        for side, ps in preds.items():
+            if ps:
+                feasible = [n for n in range(0, 12) if all(p_(n) for p_ in ps)]
+                if len(feasible) == 1:
+                    out[("len", side)] = feasible[0]
+        return out
+
     convs = [c for c in own_nodes(fn.node) if isinstance(c, ast.Call) and isinstance(c.func, ast.Attribute) and c.func.attr == "Convert"]
     rep.floor("C05.R4", "conversions in _ConvertWithExp", len(convs), 1)
     for c in convs:
-        dom = cfg.dominating_edges(cfg.node_of(c))
-        ok = all((nid, "F") in dom for nid in guards.values())
-        rep.check(ok, "C05.R4", "_ConvertWithExp:%s" % norm(ast.unparse(c))[:60] + ":%d" % convs.index(c), "the conversion is reached only with one unit on each side and equal exponents",
-                  "a conversion is reachable without passing the exponent / single-unit guards", node=c, fn=fn)
+        kn = known(nfacts(cfg, cfg.node_of(c)))
+        missing = [w for w, ok_ in (("one unit on the source side", kn.get(("len", P_FROM)) == 1), ("one unit on the target side", kn.get(("len", P_TO)) == 1), ("equal exponents", kn.get("exp-equal"))) if not ok_]
+        rep.check(not missing, "C05.R4", "_ConvertWithExp:%s" % norm(ast.unparse(c))[:60] + ":%d" % convs.index(c), "the conversion is reached only with one unit on each side and equal exponents",
+                  "a conversion is reachable without an established %s: composed units or differing exponents are converted as if they were one unit with equal exponents" % " / ".join(missing), node=c, fn=fn)
+    # every normal exit is either a conversion (guarded above) or the shortcut for an empty side: a mismatch raises
+    empty_edges = set()
+    for nid in cfg.nodes("test"):
+        for lab, f in edge_facts(cfg, nid).items():
+            kn = known([f])
+            if kn.get(("len", P_FROM)) == 0 or kn.get(("len", P_TO)) == 0:
+                empty_edges.add((nid, lab))
+    avoid = {cfg.node_of(c) for c in convs}
+    full_edges = {(a_, b_, lab) for (a_, lab0) in empty_edges for (b_, lab) in cfg.succ[a_] if lab == lab0}
+    r = cfg.reach(cfg.ENTRY, avoid=avoid, avoid_edges=full_edges)
+    rep.check(cfg.EXIT not in r, "C05.R4", "_ConvertWithExp:guards", "a composed unit or differing exponents raise: the only normal exits are a guarded conversion and the empty-side shortcut",
+              "_ConvertWithExp can return normally without converting although neither side is empty: a unit-count or exponent mismatch does not always raise", fn=fn)
     # Convert: the quantity type handed to GetInfo for both units is the same resolved one
     cv = m.method("UnitDatabase", "Convert")
     cres = Resolver(m, cv)
